@@ -771,7 +771,18 @@ func (c *FnCtx) iteVal(cond string, a, b Val) Val {
 			if a.Fn == b.Fn && len(a.Bind) == 0 {
 				return a
 			}
-			bail("merge of closures")
+			// two different function values meet: the merged value is opaque
+			// (a call through it is a call to an unknown callee); a statically
+			// known function is some non-nil value
+			opaque := func(v Val) string {
+				if v.Fn == nil {
+					return v.S
+				}
+				k := c.declare("fnval", "Int")
+				c.emit(fmt.Sprintf("(assert (not (= %s 0)))", k))
+				return k
+			}
+			return Val{K: kFunc, T: a.T, S: ite(cond, opaque(a), opaque(b))}
 		}
 	}
 	r := a
